@@ -211,9 +211,9 @@ fn gen_bounds(rng: &mut Rng, u: U, huge: bool) -> (B, B) {
     loop {
         let mk = |rng: &mut Rng, k: u64| match k {
             0 => B::UP,
-            1 => B::P(gen_off(rng, u, huge && rng.chance(1, 2))),
+            1 => { let h = huge && rng.chance(1, 2); B::P(gen_off(rng, u, h)) }
             2 => B::CR,
-            3 => B::F(gen_off(rng, u, huge && rng.chance(1, 2))),
+            3 => { let h = huge && rng.chance(1, 2); B::F(gen_off(rng, u, h)) }
             _ => B::UF,
         };
         let a = rng.below(4);
